@@ -83,7 +83,7 @@ mod proofs {
         }
     }
 
-    // @harness id=C09 tier=quick unwind=10 timeout=1200
+    // @harness id=C09 tier=quick unwind=14 timeout=1200
     // @desc the polynomial-array wrappers ntt_ps / intt_ps / ntt_lazy_ps / intt_lazy_ps transform EVERY polynomial of the array (pcount = 3: offsets advance per polynomial and per modulus), agreeing with the single-component transform applied at each position
     // @bounds pcount = 3, two moduli (97, 113), degree 2: all 12-residue arrays; tables = literals of the real NTTTables::new
     // @funcs polysmallmod::{ntt_ps,intt_ps,ntt_lazy_ps,intt_lazy_ps,ntt_p,intt_p,ntt,intt}
